@@ -451,6 +451,37 @@ func c20Config(c *fw.Ctx, mon *c20Monitor, sg c20Sig, decl []int, bmin, bmax int
 				one(t, 0)
 			}
 		}
+		// the bound function called as a Go value (as map, apply, swap! or an embedding program call it) under a
+		// context that has already ended: the contract is the same — entered iff count and types fit, otherwise an
+		// error about the count or type (whether to go on after cancellation is the caller's decision, C07)
+		if fv, gerr := e.Get(types.Symbol{Val: wantName}); gerr == nil {
+			if f, ok := fv.(types.Func); ok {
+				dead, cancelDead := context.WithCancel(evalCtx)
+				cancelDead()
+				vals := make([]types.MalType, n)
+				for i, a := range good {
+					vals[i] = a.val
+				}
+				countOK := n >= bmin && n <= bmax && n >= fixedN && (sg.Variadic != "" || n == fixedN)
+				mon.take()
+				var derr error
+				pp, psite, pmsg, pst := fw.Guard(func() { _, derr = f.Fn(dead, vals) })
+				entries := mon.take()
+				c.Count("direct_calls_under_ended_context", 1)
+				input := fmt.Sprintf("%s direct Fn call with %d assignable arguments under a cancelled context", cfg, n)
+				switch {
+				case pp:
+					c.Violate(fw.Violation{Key: "panic@" + psite, What: "direct call panicked: " + pmsg, Input: input, Detail: pst})
+					return
+				case countOK && len(entries) != 1:
+					c.Violate(fw.Violation{Key: "not-entered-inside-contract:ended-context", What: fmt.Sprintf("count and types fit but the function was entered %d time(s) (err %v)", len(entries), derr), Input: input})
+					return
+				case !countOK && (len(entries) != 0 || derr == nil || hx.Classify(derr) == hx.ETimeout):
+					c.Violate(fw.Violation{Key: "outside-contract:ended-context", What: fmt.Sprintf("argument count %d outside bounds [%d,%d]: entered %d time(s), error %v (an error about the count is demanded)", n, bmin, bmax, len(entries), derr), Input: input})
+					return
+				}
+			}
+		}
 	}
 }
 
